@@ -39,3 +39,10 @@ var bookkeepingCells = map[string]bool{
 }
 
 func isContentCell(c string) bool { return kindContentCells[c] || tableContentCells[c] }
+
+// Operations that may be applied to a shared container/bucket without the copy-before-write gate
+// because they only change its representation, never its contents (DESIGN §3.2 refinement 7; the
+// repository documents the intent at roaringArray.runOptimize). One named symbol per package.
+var representationOnly = map[string]bool{
+	"(*roaring.Bitmap).RunOptimize": true,
+}
